@@ -22,13 +22,15 @@ func ValidateQuery(query string) (string, error) {
 		return "", errors.NewQueryTooLongError(len(query), constants.MaxQueryLength)
 	}
 
-	// Basic sanitization - remove control characters but keep printable chars
+	// Basic sanitization - remove control characters but keep printable chars.
+	// Invalid UTF-8 is replaced first: strings.Map would re-encode every invalid
+	// byte as a three-byte U+FFFD and grow the query past the limit checked above.
 	cleaned := strings.Map(func(r rune) rune {
 		if unicode.IsControl(r) && r != '\n' && r != '\t' {
 			return -1 // Remove control characters except newlines and tabs
 		}
 		return r
-	}, query)
+	}, strings.ToValidUTF8(query, "?"))
 
 	// Check for potentially dangerous characters after sanitization
 	dangerousChars := regexp.MustCompile(`[<>|&;$]`)
